@@ -378,6 +378,21 @@ class Engine:
         self.decided[nz.get_id()] = (not take, nz)
         return take
 
+    def implied(self, sb):
+        """True / False if the path condition decides sb, else None (no fork, nothing recorded)"""
+        if not isinstance(sb, SB):
+            return bool(sb)
+        hit = self.decided.get(z3.simplify(sb.z).get_id())
+        if hit is not None:
+            return hit[0]
+        r, _ = self.check([z3.Not(sb.z)], sb.atoms, timeout_ms=2000)
+        if r == "unsat":
+            return True
+        r, _ = self.check([sb.z], sb.atoms, timeout_ms=2000)
+        if r == "unsat":
+            return False
+        return None
+
     def assume(self, sb):
         if hasattr(sb, "ok") and hasattr(sb, "why"):
             sb = bool(sb)
@@ -876,7 +891,7 @@ class Engine:
             if cv is None:
                 mism.append((k, "missing in concrete run"))
                 continue
-            ok, why = compare_output(sv, cv, env)
+            ok, why = compare_output(sv, cv, env, self.o.get("validate_rtol", 1e-6), self.o.get("validate_atol", 1e-8))
             if not ok:
                 mism.append((k, why))
         if mism:
@@ -950,27 +965,27 @@ def _atom_of(r: SR) -> int:
     return m[0][0]
 
 
-def compare_output(sv, cv, env):
+def compare_output(sv, cv, env, rtol=1e-6, atol=1e-8):
     """symbolic output evaluated under env vs concrete output"""
     try:
         if isinstance(sv, (SR, SC)):
             val = sv.feval(env)
-            return (close(val, cv, 1e-6, 1e-8), f"{val} vs {cv}")
+            return (close(val, cv, rtol, atol), f"{val} vs {cv}")
         if isinstance(sv, (int, float, complex, np.number, str, bool, type(None))):
             if isinstance(sv, str) or sv is None:
                 return (sv == cv, f"{sv} vs {cv}")
-            return (close(sv, cv, 1e-6, 1e-8), f"{sv} vs {cv}")
+            return (close(sv, cv, rtol, atol), f"{sv} vs {cv}")
         if isinstance(sv, (list, tuple)):
             if len(sv) != len(cv):
                 return False, f"length {len(sv)} vs {len(cv)}"
             for a, b in zip(sv, cv):
-                ok, why = compare_output(a, b, env)
+                ok, why = compare_output(a, b, env, rtol, atol)
                 if not ok:
                     return ok, why
             return True, ""
         if isinstance(sv, dict):
             for k in sv:
-                ok, why = compare_output(sv[k], cv[k], env)
+                ok, why = compare_output(sv[k], cv[k], env, rtol, atol)
                 if not ok:
                     return ok, f"{k}: {why}"
             return True, ""
@@ -982,7 +997,7 @@ def compare_output(sv, cv, env):
             a = sa[idx]
             if isinstance(a, (SR, SC)):
                 a = a.feval(env)
-            if not close(a, ca[idx], 1e-6, 1e-8):
+            if not close(a, ca[idx], rtol, atol):
                 return False, f"{idx}: {a} vs {ca[idx]}"
         return True, ""
     except Exception as e:      # pragma: no cover
